@@ -276,6 +276,10 @@ def producers():
         ("fill_blackbox(child with a nested blackbox)", _fill_nested),
         ("remove_unloaded(flop with dead logic)", _ru_flop),
         ("remove_unloaded(inputs=True)", _ru_plain),
+        ("add_blackbox(two nets on one input pin)", lambda c: _two_drivers(c, "add_blackbox")),
+        ("connect(second driver onto a pin)", lambda c: _two_drivers(c, "connect")),
+        ("add(second driver onto a pin)", lambda c: _two_drivers(c, "add")),
+        ("logic generators after an edited result", _generators_after_edit),
         ("io.verilog-roundtrip(open pin)", lambda c: _bb_open(c, False, False)),
         ("io.verilog-fast-roundtrip(open pin)", lambda c: _bb_open(c, True, False)),
         ("io.verilog(omitted pin)", lambda c: _bb_open(c, False, True)),
@@ -364,6 +368,41 @@ def _ru_flop(c):
     cg.lint(r)
     r.remove_unloaded()
     return r
+
+
+def _two_drivers(c, how):
+    """Composition calls that try to put a second driver on a blackbox input pin: the call must refuse (ValueError,
+    tolerated by the caller of this producer) or leave a lint-clean circuit."""
+    import circuitgraph as cg
+
+    r = c.copy()
+    ins = sorted(r.inputs())
+    o = sorted(r.outputs())[0]
+    if o in ins:
+        raise _Skip()
+    r.add("q_net", "buf")
+    r.add("q_out", "buf", fanin="q_net", output=True)
+    bb = cg.BlackBox("FD", ["CK", "D"], ["Q"])
+    if how == "add_blackbox":
+        r.add_blackbox(bb, "r0", {"CK": ins[0], "D": [o, ins[0]], "Q": "q_net"})
+        return r
+    r.add_blackbox(bb, "r0", {"CK": ins[0], "D": o, "Q": "q_net"})
+    if how == "connect":
+        r.connect(ins[0], "r0.D")
+    else:
+        r.add("extra_drv", "not", fanin=ins[0], fanout="r0.D", output=True)
+    return r
+
+
+def _generators_after_edit(c):
+    """A caller edits blocks it obtained from the generators, then asks for blocks again."""
+    import circuitgraph as cg
+
+    lg = cg.logic
+    for blk in (lg.full_adder(), lg.half_adder(), lg.adder(2), lg.mux(2), lg.popcount(2)):
+        space.scramble(blk)
+    return [lg.full_adder(), lg.half_adder(), lg.adder(1), lg.adder(3, carry_in=True, carry_out=True), lg.mux(2), lg.mux(3),
+            lg.popcount(2), lg.popcount(3)]
 
 
 def _bb_open(c, fast, omit):
